@@ -1,7 +1,13 @@
-\* Part 1 (safety and deadlock freedom; termination: MC_SerializeLive.cfg): the lock protocol of the request handlers as they are today; 3 concurrent requests of every handler kind.
-\* NoLockKinds / PreAccessKinds describe the code (pkg/resmgr/nri.go); UnlockedKinds names the deviations that
-\* Inv_MutexLocking excuses.  engines/serialize.py re-runs this configuration with one kind removed from UnlockedKinds at a
-\* time (TLC must then report Inv_MutexLocking violated) and with the seeded-mutation leads (RLockKinds, TwiceKinds).
+\* Part 1 (safety and deadlock freedom; termination: MC_SerializeLive.cfg): the lock protocol of the request handlers as
+\* they are today (since /repo commit 06edfe4 every handler takes the lock before it touches the cache or the policy);
+\* 3 concurrent requests of every handler kind.
+\* NoLockKinds / PreAccessKinds describe deviations of the code from that rule (none today); UnlockedKinds names the
+\* deviations Inv_MutexLocking excuses (none today: Inv_MutexLocking = Inv_Mutex).
+\* engines/serialize.py re-runs this configuration
+\*   - with the handlers as they were before 06edfe4 (NoLockKinds <- OldNoLockKinds, PreAccessKinds <- OldPreAccessKinds of
+\*     MC_Serialize.tla, all together and one kind at a time): TLC must report Inv_MutexLocking violated;
+\*   - with one kind removed from UnlockedKinds at a time (nothing to do while it is empty);
+\*   - with the seeded-mutation leads (RLockKinds, TwiceKinds).
 SPECIFICATION SpecLock
 CONSTANTS
   Procs <- MCProcs
@@ -12,11 +18,11 @@ CONSTANTS
   p3 = p3
   r1 = r1
   r2 = r2
-  NoLockKinds = {"StopPodSandbox", "Synchronize"}
-  PreAccessKinds = {"RemovePodSandbox"}
+  NoLockKinds = {}
+  PreAccessKinds = {}
   RLockKinds = {}
   TwiceKinds = {}
-  UnlockedKinds = {"StopPodSandbox", "Synchronize", "RemovePodSandbox"}
+  UnlockedKinds = {}
   OldOrder = FALSE
 SYMMETRY Symm
 INVARIANTS TypeOKLock Inv_AtMostOne Inv_MutexLocking Inv_EventView Inv_SeqView
